@@ -32,6 +32,11 @@ def cases(tier, seed):
                 yield {"kind": kind, "n": n, "lbatch": lb, "dbatch": db, "call_noise": call_noise, "seed": rnd.randrange(10**6)}
         # a function distribution whose size differs from the stored fixed noise and no call-time noise: documented as a
         # no-op for the fixed part (warning); a learned additional noise is still added
+        for kind, how in itertools.product(["fixed", "fixed+learn", "gauss"], ["property", "attribute", "initialize"]):
+            if kind == "gauss" and how == "attribute":
+                continue
+            for _r in range(2):
+                yield {"kind": "reassign", "lkind": kind, "how": how, "n": rnd.choice([3, 5]), "seed": rnd.randrange(10**6)}
         for kind, n, m_ in itertools.product(["fixed", "fixed+learn"], [3, 5], [2, 7]):
             yield {"kind": "size_mismatch", "lkind": kind, "n": n, "m": m_, "seed": rnd.randrange(10**6)}
         for t, n, inter in itertools.product([2, 3], [1, 4], [True, False]):
@@ -143,6 +148,8 @@ def run_case(case, ctx):
     g = util.gen(case["seed"])
     if case["kind"] == "size_mismatch":
         return _size_mismatch(case, ctx, g)
+    if case["kind"] == "reassign":
+        return _reassign(case, ctx, g)
     if case["kind"] == "mt":
         return _mt(case, ctx, g)
     if case["kind"] == "list":
@@ -209,6 +216,50 @@ def _single(case, ctx, g):
     ctx.close("forward_loc", cond.loc, f.expand(cond.loc.shape), "bit", cls=cls)
     # noise is added once: applying to an already-noisy distribution adds R again, not more
     ctx.cell({k: v_ for k, v_ in case.items() if k != "seed"}, nontrivial=n > 1)
+
+
+def _reassign(case, ctx, g):
+    """the noise in force is the one the likelihood holds NOW: values re-bound / re-initialised between two calls (fixed noise
+    through the `noise` property, the noise model's attribute or initialize(); learned noise through its setter) are the ones
+    the second call adds - in training and in evaluation mode, for marginal, expected_log_prob and log_marginal alike"""
+    import torch
+
+    from gpytorch.distributions import MultivariateNormal as MVN
+    from vf import util
+
+    n, kind, how = case["n"], case["lkind"], case["how"]
+    lik, fixed = _make_lik(kind, g, [], n)
+    _mode(lik, case, ctx)
+    d = MVN(util.randn(g, n), _spd(g, n))
+    y = d.mean + util.randn(g, n)
+    # first use (whatever is cached now belongs to the old values)
+    lik(d)
+    lik.expected_log_prob(y, d)
+    new_fixed = fixed
+    with torch.no_grad():
+        if kind != "gauss":
+            new_fixed = util.rand(g, n) * 0.7 + 0.4
+            if how == "property":
+                lik.noise = new_fixed
+            elif how == "attribute":
+                lik.noise_covar.noise = new_fixed
+            else:
+                lik.noise_covar.initialize(noise=new_fixed)
+        if kind == "fixed+learn":
+            lik.second_noise = float(lik.second_noise) * 1.9 + 0.3
+        if kind == "gauss":
+            if how == "initialize":
+                lik.initialize(noise=float(lik.noise) * 2.3 + 0.2)
+            else:
+                lik.noise = float(lik.noise) * 2.3 + 0.2
+    r = _R_single(lik, kind, new_fixed, None, d.mean.shape)
+    out = lik(d)
+    cls = f"reassign:{kind}:{how}"
+    ctx.close("marginal_adds_R", out.covariance_matrix - d.covariance_matrix, torch.diag_embed(r), "direct", cls=cls)
+    v = d.variance
+    ctx.close("expected_log_prob", lik.expected_log_prob(y, d), _elp_ref(y, d.mean, v, r), "direct", cls=cls)
+    ctx.close("log_marginal", lik.log_marginal(y, d), _lm_ref(y, d.mean, v, r), "direct", cls=cls)
+    ctx.cell({k: v_ for k, v_ in case.items() if k != "seed"})
 
 
 def _size_mismatch(case, ctx, g):
